@@ -13,6 +13,9 @@ import (
 type StructCfg struct {
 	Coq    string   `json:"coq"`
 	Fields []string `json:"fields"`
+	// Ignore: fields left out of the record that a composite literal may still set (a mutex,
+	// the clock): the literal's value for them is dropped after it was checked free of effects
+	Ignore []string `json:"ignore"`
 }
 
 // FuncCfg: one function to translate.
@@ -40,6 +43,11 @@ type FuncCfg struct {
 	// LoopBody: the function is `for { … }`; the body of that loop is translated as ONE
 	// iteration (a step function); falling off its end = the state after the iteration
 	LoopBody bool `json:"loop_body"`
+	// UntilSelect: only the statements BEFORE the function's first top-level `select` are
+	// translated (the part that runs before the function blocks).  The results become an
+	// option: `Some (results)` for a return inside that part, `None` = the select was
+	// reached (the function is blocked there; what happens then is not translated).
+	UntilSelect bool `json:"until_select"`
 }
 
 // Intrinsic: a call the translator does not look into.
@@ -97,6 +105,56 @@ type Config struct {
 	SkipStmts  []SkipStmt            `json:"skip_stmts"`
 	RefTypes   []string              `json:"ref_types"` // Go types that are references: a local bound to a path of such a type is an alias of the path
 	Requires   []string              `json:"requires"`  // further `From Verif Require Import` (earlier generated files)
+	// FloatExact (opt-in): float64 values are READ AS EXACT INTEGERS (Z): + - * and the
+	// comparisons are those of Z, conversions between float64 and the integer kinds are the
+	// identity (so is the truncation of time.Duration(f)), / and % on floats and float
+	// literals with a fraction stay refused.  This is NOT IEEE-754 arithmetic; the generated
+	// header says so and the props file must list it as trusted.  Without it any operator on
+	// a float64 is refused.
+	FloatExact bool `json:"float_exact"`
+	// TypeParams (opt-in): type parameters of the generic code read as OPAQUE types: the
+	// generated definitions live in a Section with one `Variable <name> : Type` each, a
+	// decidable equality `Variable <eq> : T -> T -> bool` where "eq" is given (needed for
+	// == and for map keys) and a zero value `Variable <zero> : T` where "zero" is given
+	// (needed for `var x T`, map look-ups of T).  Every instantiation of a configured
+	// generic struct must pass exactly its declared parameter names in order.
+	TypeParams []TypeParamCfg `json:"type_params"`
+	// FuncValues (opt-in): function-typed fields/locals/parameters are values of
+	// `option (A -> B -> R)` (nil = None); calling one is a PURE application (a call of nil
+	// is the result Panicked); what the function does is not looked into.
+	FuncValues bool `json:"func_values"`
+	// GoStatements (opt-in): `go func() { … }()` is translated as a RECORDED result: the
+	// body becomes a definition of its own (<Func>_go, parameters = the captured variables,
+	// its clock readings are its own), the starting function returns, last, the list of
+	// goroutines it started (<Func>_go_args records holding the captured values).
+	GoStatements bool              `json:"go_statements"`
+	Sums         map[string]SumCfg `json:"sums"`
+	Dispatch     []DispatchCfg     `json:"dispatch"`
+}
+
+// SumCfg: an interface type whose dynamic types are the listed structs of the package
+// (held through pointers): an Inductive with one constructor per variant plus `<coq>_nil`
+// (the nil interface value).  x.(*V) is the generated projection (single-value form guarded:
+// Panicked when the dynamic type differs); a *V used where the interface is expected is the
+// injection.  Method calls on such a value need a "dispatch" entry.
+type SumCfg struct {
+	Coq      string   `json:"coq"`
+	Variants []string `json:"variants"`
+}
+
+// DispatchCfg: dynamic dispatch of a method through a sum type: a generated definition
+// that matches on the dynamic type and calls that variant's translated method (every
+// variant's method must be listed in "functions"); a call on nil panics.
+type DispatchCfg struct {
+	Sum    string `json:"sum"`
+	Method string `json:"method"`
+	Coq    string `json:"coq"`
+}
+
+type TypeParamCfg struct {
+	Name string `json:"name"`
+	Eq   string `json:"eq"`
+	Zero string `json:"zero"`
 }
 
 func loadConfig(path string) (*Config, error) {
